@@ -185,8 +185,6 @@ def random_component(rng):
     r = rng.random()
     if r < 0.45:
         return tok(rng.choice(STRUCTURAL))
-    if r < 0.5:
-        return [rng.choice(["BASE1", "BASE2"])]
     n = rng.randint(1, 8)
     out = []
     for _ in range(n):
@@ -444,6 +442,7 @@ def _work(rep, args, quick, rng, blocklens, base, wd, pool):
         "responses_err": 0,
         "violating_steps": 0,
         "sandbox_blocked_steps": 0,
+        "not_comparable_steps": 0,
     }
     match = {"guarded_only": 0, "unguarded_only": 0, "both": 0, "neither": 0}
     per_origin = {}
@@ -468,8 +467,10 @@ def _work(rep, args, quick, rng, blocklens, base, wd, pool):
                 match["guarded_only"] += 1
             elif v["mu"]:
                 match["unguarded_only"] += 1
-            elif blocked:
-                pass  # the sandbox changed the course of the request; not comparable
+            elif blocked or obs["x_host"]:
+                # the sandbox changed the course of the request, or it touched an object of the
+                # host's file system that the model's tree does not contain: not comparable
+                counters["not_comparable_steps"] += 1
             else:
                 match["neither"] += 1
                 key = (obs["m"], shape(obs["u"]), obs["c"])
